@@ -3,12 +3,17 @@ from tools import vlib
 from tools.harness import gen, corr, pcommon, build, dump, observe
 
 PROP = "C12"
-GEN = ["gen_ops"]
+GEN = ["gen_ops", "gen_sugar"]
 RULE = ("construction programs: a pool of expressions shared between several composites; random sequences of + | ^ & ~ - * [] ... "
         "copy() expr() expr('name') set_results_name(), interleaved with parses of the composites (which streamline them); before and "
         "after every step each pool member's behaviour (outcome on 12 inputs) and its dumped structure must be unchanged; a copy must "
         "parse like its original; the sugar table (expr*n, expr[m,n], [...], [1,...], [n,...], [...:stop], expr|'', a+...+b, "
-        "associativity of + | ^) is compared both as dumped object graphs after streamline and by parsing both sides; the extracted "
+        "associativity of + | ^) is compared both as dumped object graphs after streamline and by parsing both sides; the Coq elaboration "
+        "of every operator form (Model/Sugar.v: e*n, e[n], e[m,n], e*(m,n), e[...,n], e[...], e[n,...], e[...:stop], e|'', a|b, a+...+b, the three "
+        "spellings of a 3-sequence / 3-alternation, and the documented expansions) x operands {Literal, Word, Keyword, Group, Opt, "
+        "OneOrMore, named token, sequence, alternation, White, own whitespace set, leave_whitespace, ignore} is compared node by node "
+        "(flags, children, sharing) with the dump of the real streamlined object; the closed counter-examples of Props/C12.v are "
+        "replayed on the real code; the extracted "
         "model is compared with the implementation on the composites; non-trivial = a pool member used in >= 2 composites")
 TRUSTED = pcommon.TRUSTED_PARSE
 
@@ -273,6 +278,7 @@ def sugar_table():
     A = lambda: pp.Literal("a")
     B = lambda: pp.Literal("b")
     W = lambda: pp.Word("ab")
+    G = lambda: pp.Group(pp.Word("ab") + pp.Opt(","))
     return [
         ("expr*3", lambda: W() * 3, lambda: (lambda w: pp.And([w, w, w]))(W())),
         ("expr[2,4]", lambda: A()[2, 4], lambda: (lambda a: pp.And([a, a]) + pp.Opt(a + pp.Opt(a)))(A())),
@@ -298,6 +304,24 @@ def sugar_table():
         ("((a?+b?)+c)[...]", lambda: ((pp.Opt(A()) + pp.Opt(B())) + pp.Literal("c"))[...], lambda: pp.ZeroOrMore(pp.And([pp.Opt(A()), pp.Opt(B()), pp.Literal("c")]))),
         ("((a?+b?)+c)|a", lambda: ((pp.Opt(A()) + pp.Opt(B())) + pp.Literal("c")) | A(), lambda: pp.MatchFirst([pp.And([pp.Opt(A()), pp.Opt(B()), pp.Literal("c")]), A()])),
         ("((a|b)|c)&d", lambda: ((A() | B()) | pp.Literal("c")) & pp.Literal("d"), lambda: pp.MatchFirst([A(), B(), pp.Literal("c")]) & pp.Literal("d")),
+        # other counts / operands; the right-hand sides are the documented meanings spelled with `+`, Opt, ZeroOrMore
+        # ("n-fold sequence", "m copies plus up to n-m optional ones" as a FLAT sequence of Opt)
+        ("expr*1", lambda: W() * 1, lambda: W()),
+        ("expr*2==e+e", lambda: W() * 2, lambda: (lambda w: w + w)(W())),
+        ("expr*3==e+e+e", lambda: W() * 3, lambda: (lambda w: w + w + w)(W())),
+        ("expr[3]", lambda: A()[3], lambda: (lambda a: a + a + a)(A())),
+        ("group*2", lambda: G() * 2, lambda: (lambda g: g + g)(G())),
+        ("named*2", lambda: W()("n") * 2, lambda: (lambda w: w + w)(W()("n"))),
+        ("expr[0,2]", lambda: A()[0, 2], lambda: (lambda a: pp.Opt(a) + pp.Opt(a))(A())),
+        ("expr[...,2]", lambda: A()[..., 2], lambda: (lambda a: pp.Opt(a) + pp.Opt(a))(A())),
+        ("expr[1,3]", lambda: W()[1, 3], lambda: (lambda w: w + pp.Opt(w) + pp.Opt(w))(W())),
+        ("expr[2,4]flat", lambda: A()[2, 4], lambda: (lambda a: pp.And([a, a, pp.Opt(a), pp.Opt(a)]))(A())),
+        ("group[1,2]", lambda: G()[1, 2], lambda: (lambda g: g + pp.Opt(g))(G())),
+        ("expr[3,...]", lambda: A()[3, ...], lambda: (lambda a: a + a + a + pp.ZeroOrMore(a))(A())),
+        ("opt[1,...]", lambda: (pp.Opt(A()) + B())[1, ...], lambda: pp.OneOrMore(pp.Opt(A()) + B())),
+        ("expr[1,...:stop]", lambda: W()[1, ...: B()], lambda: pp.OneOrMore(W(), stop_on=B())),
+        ("group|''", lambda: G() | "", lambda: pp.Opt(G())),
+        ("w+...+b", lambda: W() + ... + B(), lambda: (lambda b: W() + pp.SkipTo(b)("_skipped*") + b)(B())),
     ]
 
 
@@ -334,6 +358,362 @@ def sugar_checks(ctx):
             pass
 
 
+# ---------------------------------------------------------------------------------------------------------------
+# the operator sugar INSIDE the model: coq/Model/Sugar.v elaborates every operator form into a model `expr`; here the
+# elaboration (evaluated by coqc, printed by Sugar.sgx_expr in the format of tools/harness/dump.py) is compared node by
+# node - flags, children, sharing of operand objects - with the dump of the real object the operator builds, after
+# streamline().  The operands are handed to the elaboration as dumped; the nodes the operator creates carry symbolic
+# identities (>= 5000) that are unified with the real ones (the same matcher C16 uses for infix_elab).
+# ---------------------------------------------------------------------------------------------------------------
+SUGAR_PREAMBLE = """From Coq Require Import List ZArith NArith Bool String.
+From PP Require Import Model.Str Model.Results Model.Prog Model.Core Model.Infix Model.Sugar.
+Import ListNotations.
+Definition ids_ (c : nat) : nat * nat := (5000 + c, 0).
+Definition A_ (n : nat) (rs : option str) (mo asl sk : bool) (wh : list char) (cp mi cu hm ct : bool) (sl : nat) : attrs :=
+  {| nid := n; rsname := rs; modalr := mo; aslist := asl; skipws := sk; white := wh; callpre := cp; mayidx := mi;
+     custom := cu; hasmsg := hm; acts := []; calltry := ct; slen := sl |}.
+"""
+
+
+class _NotExpressible(Exception):
+    pass
+
+
+def _cb(x):
+    return "true" if x == "1" else "false"
+
+
+def _cchars(l):
+    return "[" + ";".join(l) + "]%N"
+
+
+def _conat(x):
+    return "None" if x == "N" else "(Some %s)" % x
+
+
+def _attrs_coq(A):
+    if A[0] != "A" or A[11] != []:
+        raise _NotExpressible("parse actions")
+    rs = "None" if A[2] == "N" else "(Some %s)" % _cchars(A[2][1:])
+    return "(A_ %s %s %s %s %s %s %s %s %s %s %s %s)" % (A[1], rs, _cb(A[3]), _cb(A[4]), _cb(A[5]), _cchars(A[6]), _cb(A[7]), _cb(A[8]),
+                                                          _cb(A[9]), _cb(A[10]), _cb(A[12]), A[13])
+
+
+def _sx_to_coq(sx):
+    """dumped operand (parsed S-expression) -> Gallina term of type expr"""
+    k = sx[0]
+    A = _attrs_coq(sx[1])
+    I = "[%s]" % "; ".join(_sx_to_coq(x) for x in sx[2])
+    if k == "T":
+        t = sx[3]
+        if t == "empty": tk = "KEmpty"
+        elif t == "nomatch": tk = "KNoMatch"
+        elif t == "lineend": tk = "KLineEnd"
+        elif t[0] == "lit": tk = "(KLit %s)" % _cchars(t[1])
+        elif t[0] == "kw": tk = "(KKeyword %s %s %s %s)" % (_cchars(t[1]), _cchars(t[2]), _cb(t[3]), _cchars(t[4]))
+        elif t[0] == "word": tk = "(KWord %s %s %s %s %s %s %s)" % (_cchars(t[1]), _cchars(t[2]), t[3], _conat(t[4]), _cb(t[5]), _cb(t[6]), _cb(t[7]))
+        elif t[0] == "notin": tk = "(KNotIn %s %s %s)" % (_cchars(t[1]), t[2], _conat(t[3]))
+        elif t[0] == "white": tk = "(KWhite %s %s %s)" % (_cchars(t[1]), t[2], _conat(t[3]))
+        else:
+            raise _NotExpressible("token %r" % (t,))
+        return "(Tok %s %s %s)" % (A, I, tk)
+    if k == "N" and sx[3] in ("and", "mf", "or"):
+        kind = {"and": "NAnd", "mf": "NMatchFirst", "or": "NOr"}[sx[3]]
+        return "(Nary %s %s %s [%s])" % (A, I, kind, "; ".join(_sx_to_coq(x) for x in sx[4]))
+    if k == "E":
+        ek = sx[3]
+        if ek == "suppress": e = "ESuppress"
+        elif ek == "not": e = "ENot"
+        elif ek == "fb": e = "EFollowedBy"
+        elif ek == "pass": e = "EPass"
+        elif ek[0] == "group": e = "(EGroup %s)" % _cb(ek[1])
+        elif ek[0] == "opt" and ek[1] == "N": e = "(EOpt None)"
+        else:
+            raise _NotExpressible("enhance %r" % (ek,))
+        return "(Enh %s %s %s %s)" % (A, I, e, _sx_to_coq(sx[4]))
+    if k == "R":
+        return "(Rep %s %s %s %s %s)" % (A, I, _cb(sx[3]), _sx_to_coq(sx[4]), "None" if sx[5] == "N" else "(Some %s)" % _sx_to_coq(sx[5]))
+    raise _NotExpressible("node %r" % (k,))
+
+
+def sugar_operands():
+    """(name, maker): Literal, Word, a Group, an Opt, a named token, a sequence and an alternation (streamline splices them),
+    elements with their own whitespace settings (copied by And / Opt / repetition / SkipTo), White (special-cased by And and
+    MatchFirst), an element with an ignore expression"""
+    import pyparsing as pp
+    return [("lit", lambda: pp.Literal("a")), ("word", lambda: pp.Word("ab")), ("group", lambda: pp.Group(pp.Word("ab") + pp.Opt(","))),
+            ("opt", lambda: pp.Opt(pp.Literal("a"))), ("named", lambda: pp.Word("ab")("n")), ("seq", lambda: pp.Literal("a") + pp.Literal("b")),
+            ("alt", lambda: pp.Literal("ab") | pp.Literal("a")), ("white", lambda: pp.White(" ")), ("wsx", lambda: pp.Word("ab").set_whitespace_chars(" ,")),
+            ("lws", lambda: pp.Literal("a").leave_whitespace()), ("kw", lambda: pp.Keyword("ab")), ("rep", lambda: pp.OneOrMore(pp.Literal("a"))),
+            ("ign", lambda: pp.Word("ab").ignore(pp.Literal("#")))]
+
+
+def sugar_forms(thorough=False):
+    """(name, arity, real construction, Gallina term of the elaboration with {0} {1} {2} = operands, {cdw} = copyDefaultWhiteChars of
+    the SkipTo target).  Both the sugar forms and the documented expansions they are proved equivalent to are listed: each is tied
+    to the real object it stands for."""
+    import pyparsing as pp
+    S = "DW_ ids_"
+    F = []
+    for n in (0, 1, 2, 3, 5):
+        F.append(("e*%d" % n, 1, lambda e, n=n: e * n, "sg_mul %s %d {0}" % (S, n)))
+        if thorough or n in (0, 2):
+            F.append(("e[%d]" % n, 1, lambda e, n=n: e[n], "sg_item %s (KN %d) None {0}" % (S, n)))
+    for m, n in ((2, 4), (0, 1), (0, 2), (0, 3), (1, 2), (1, 3), (2, 3), (3, 3), (1, 1), (0, 0), (3, 5)):
+        F.append(("e[%d,%d]" % (m, n), 1, lambda e, m=m, n=n: e[m, n], "sg_range %s %d %d {0}" % (S, m, n)))
+        if thorough or (m, n) in ((2, 4), (0, 2), (1, 1)):
+            F.append(("e*(%d,%d)" % (m, n), 1, lambda e, m=m, n=n: e * (m, n), "sg_times %s %d (Some %d) {0}" % (S, m, n)))
+    F.append(("e[...,2]", 1, lambda e: e[..., 2], "sg_item %s (KUpto 2) None {0}" % S))
+    F.append(("e[...]", 1, lambda e: e[...], "sg_star %s {0}" % S))
+    F.append(("e[0,...]", 1, lambda e: e[0, ...], "sg_star0 %s {0}" % S))
+    F.append(("e[1,...]", 1, lambda e: e[1, ...], "sg_plus %s {0}" % S))
+    for n in (2, 3, 4):
+        F.append(("e[%d,...]" % n, 1, lambda e, n=n: e[n, ...], "sg_atleast %s %d {0}" % (S, n)))
+        F.append(("e*%d+ZeroOrMore(e)" % n, 1, lambda e, n=n: e * n + pp.ZeroOrMore(e), "x_atleast %s %d {0}" % (S, n)))
+        F.append(("e+..+e (%d)" % n, 1, lambda e, n=n: _chain(e, n), "x_chain %s %d {0}" % (S, n)))
+    F.append(("e*(1,None)", 1, lambda e: e * (1, None), "sg_times %s 1 None {0}" % S))
+    F.append(("ZeroOrMore(e)", 1, lambda e: pp.ZeroOrMore(e), "c_zom ids_ cREP {0}"))
+    F.append(("OneOrMore(e)", 1, lambda e: pp.OneOrMore(e), "c_oom ids_ cREP {0}"))
+    F.append(("Opt(e)", 1, lambda e: pp.Opt(e), "c_opt ids_ (cOPT 0) {0}"))
+    F.append(("e|''", 1, lambda e: e | "", "sg_or_empty %s {0}" % S))
+    F.append(("And([e]*2+[Opt(e)]*2)", 1, lambda e: pp.And([e, e, pp.Opt(e), pp.Opt(e)]), "x_range_flat %s 2 2 {0}" % S))
+    F.append(("e[...:b]", 2, lambda e, b: e[...:b], "sg_until %s {0} {1}" % S))
+    F.append(("e[0,...:b]", 2, lambda e, b: e[0, ...:b], "sg_item %s (KFrom 0) (Some {1}) {0}" % S))
+    F.append(("e[1,...:b]", 2, lambda e, b: e[1, ...:b], "sg_item %s (KFrom 1) (Some {1}) {0}" % S))
+    F.append(("ZeroOrMore(e,stop_on=b)", 2, lambda e, b: pp.ZeroOrMore(e, stop_on=b), "c_zom_stop ids_ cREP cNOT {0} {1}"))
+    F.append(("OneOrMore(e,stop_on=b)", 2, lambda e, b: pp.OneOrMore(e, stop_on=b), "c_oom_stop ids_ cREP cNOT {0} {1}"))
+    F.append(("a+...+b", 2, lambda a, b: a + ... + b, "sg_skip %s {cdw} {0} {1}" % S))
+    F.append(("a+SkipTo(b)('_skipped*')+b", 2, lambda a, b: a + pp.SkipTo(b)("_skipped*") + b, "x_skip %s {cdw} {0} {1}" % S))
+    F.append(("a|b", 2, lambda a, b: a | b, "sg_or %s (Some {1}) {0}" % S))
+    F.append(("(a+b)+c", 3, lambda a, b, c: (a + b) + c, "sg_and_left %s {0} {1} {2}" % S))
+    F.append(("a+(b+c)", 3, lambda a, b, c: a + (b + c), "sg_and_right %s {0} {1} {2}" % S))
+    F.append(("And([a,b,c])", 3, lambda a, b, c: pp.And([a, b, c]), "sg_and_flat %s [{0}; {1}; {2}]" % S))
+    F.append(("(a|b)|c", 3, lambda a, b, c: (a | b) | c, "sg_mf_left %s {0} {1} {2}" % S))
+    F.append(("a|(b|c)", 3, lambda a, b, c: a | (b | c), "sg_mf_right %s {0} {1} {2}" % S))
+    F.append(("MatchFirst([a,b,c])", 3, lambda a, b, c: pp.MatchFirst([a, b, c]), "sg_mf_flat %s [{0}; {1}; {2}]" % S))
+    return F
+
+
+def _chain(e, n):
+    r = e
+    for _ in range(n - 1):
+        r = r + e
+    return r
+
+
+def sugar_elab_cases(ctx):
+    """[(label, Gallina term, dumped real root (parsed))]"""
+    import pyparsing as pp
+    ops = sugar_operands()
+    names = [n for n, _ in ops]
+    mk = dict(ops)
+    import random
+    rng = random.Random(ctx.seed + 1207)          # its own stream: the construction programs keep theirs
+    # operand tuples: every operand alone; pairs / triples: a fixed diagonal + seeded random ones
+    nrand = 6 if not ctx.thorough else 40
+    pairs = [(a, "lit") for a in names] + [("word", b) for b in names] + [tuple(rng.choice(names) for _ in range(2)) for _ in range(nrand)]
+    triples = [(a, "word", "lit") for a in names] + [("lit", b, "word") for b in names] + [("lit", "word", c) for c in names] + \
+              [tuple(rng.choice(names) for _ in range(3)) for _ in range(nrand)]
+    out = []
+    for fname, arity, real, term in sugar_forms(ctx.thorough):
+        for tup in ([(n,) for n in names] if arity == 1 else (pairs if arity == 2 else triples)):
+            operands = [mk[n]() for n in tup]
+            label = "%s with %s" % (fname, ",".join(tup))
+            try:
+                obj = real(*operands)
+            except Exception as x:
+                ctx.stat("sugar_elab_construction_raises")
+                continue
+            try:
+                obj.streamline()
+                d = dump.Dumper()
+                root_sx, env_sx = d.dump(obj)
+                if d.fwd_bodies:
+                    continue
+                o_terms = [_sx_to_coq(observe.parse_sx(d.expr(o))) for o in operands]
+            except (dump.Unsupported, _NotExpressible):
+                ctx.stat("sugar_elab_not_expressible")
+                continue
+            cdw = "true" if operands[-1].copyDefaultWhiteChars else "false"
+            out.append((label, "sgx_expr (%s)" % term.format(*o_terms, cdw=cdw), observe.parse_sx(root_sx)))
+    return out
+
+
+def sugar_elab_checks(ctx):
+    import pyparsing as pp, os
+    from tools.props import c16
+    cases = sugar_elab_cases(ctx)
+    dw = _cchars([str(ord(c)) for c in sorted(pp.ParserElement.DEFAULT_WHITE_CHARS)])
+    pre = SUGAR_PREAMBLE + "Definition DW_ : list char := %s.\n" % dw
+    try:
+        from concurrent.futures import ThreadPoolExecutor
+        CH = 120
+        chunks = [cases[i:i + CH] for i in range(0, len(cases), CH)]
+        with ThreadPoolExecutor(max_workers=6) as ex:          # independent coqc processes (scratch files named apart)
+            parts = list(ex.map(lambda ic: vlib.coq_eval_terms("c12_sugar_%d_%d" % (os.getpid(), ic[0]), pre, [t for _, t, _ in ic[1]], timeout=900),
+                                enumerate(chunks)))
+        vals = [v for part in parts for v in part]
+    except Exception as e:
+        ctx.broken("correspondence:sugar_elab evaluation failed (%s: %s)" % (type(e).__name__, str(e)[-300:].replace("\n", " ")))
+        return
+    nbad = 0
+    for (label, _, real), v in zip(cases, vals):
+        d = c16.match_structure(c16.coqval_to_sx(v), real)
+        ctx.stat("sugar_elab_compared")
+        ctx.case("sugar_elab:" + label, True, d is None)
+        if d is not None:
+            nbad += 1
+            if nbad <= 4:
+                ctx.broken("correspondence:sugar_elab the elaboration of %s (coq/Model/Sugar.v) differs from the dumped real object: %s" % (label, d[:300]))
+    ctx.stat("sugar_elab_mismatches", nbad)
+
+
+def sugar_witness_checks(ctx):
+    """the closed counter-examples of Props/C12.v (C12_sugar_mul_chain_refuted, C12_sugar_and_assoc_flat_refuted,
+    C12_sugar_mul_zero_refuted), replayed: the READING (Coq `peg`) of the elaboration over the DUMPED real operand must be what
+    the real objects answer - on both sides of each refuted equivalence.  (They are differences between two spellings that the
+    documentation equates, on operands with whitespace settings of their own; they are recorded in notes/C12.md, not raised
+    as violations: the sides are compared with each other only where the documentation's equivalence is proved.)"""
+    import pyparsing as pp
+
+    def mk_e():
+        x = pp.Literal("x").set_whitespace_chars("")
+        y = pp.Literal("y").set_whitespace_chars("")
+        return (x | y) + pp.Literal("z")
+    A = lambda: pp.Literal("a")
+    S = "DW_ ids_"
+    rows = [("e*3", lambda: [mk_e()], lambda e: e * 3, "sg_mul %s 3 {0}" % S, "xz xz xz"),
+            ("e+e+e", lambda: [mk_e()], lambda e: e + e + e, "x_chain %s 3 {0}" % S, "xz xz xz"),
+            ("e*2", lambda: [mk_e()], lambda e: e * 2, "sg_mul %s 2 {0}" % S, "xz xz"),
+            ("And([a,a,e])", lambda: [A(), A(), mk_e()], lambda a, b, c: pp.And([a, b, c]), "sg_and_flat %s [{0}; {1}; {2}]" % S, "a a xz"),
+            ("(a+a)+e", lambda: [A(), A(), mk_e()], lambda a, b, c: (a + b) + c, "sg_and_left %s {0} {1} {2}" % S, "a a xz"),
+            ("a*0", lambda: [A()], lambda a: a * 0, "sg_mul %s 0 {0}" % S, ""),
+            ("(a+a)+a*0", lambda: [A(), A()], lambda a, b: (a + b) + a * 0, "sg_and_left %s {0} {1} (sg_mul %s 0 {0})" % (S, S), "a a")]
+    terms, reals = [], []
+    for name, mkops, real, term, inp in rows:
+        ops = mkops()
+        obj = real(*ops)
+        obj.streamline()
+        d = dump.Dumper()
+        d.dump(obj)
+        o_terms = [_sx_to_coq(observe.parse_sx(d.expr(o))) for o in ops]
+        t = term.format(*o_terms)
+        s = vlib.coq_str(inp)
+        # the reading, and the parser model (the two differ on And([]): the reading accepts, `_parse` raises)
+        terms.append("(peg [] %s 12 (%s) 0, proj (parse (step []) 12 (mkargs (%s) %s 0 true true)))" % (s, t, t, s))
+        try:
+            r = obj.parse_string(inp)
+            reals.append((name, inp, ("ok", _flat(r.as_list()))))
+        except pp.ParseException:
+            reals.append((name, inp, ("fail",)))
+    dw = _cchars([str(ord(c)) for c in sorted(pp.ParserElement.DEFAULT_WHITE_CHARS)])
+    pre = SUGAR_PREAMBLE.replace("Model.Infix Model.Sugar.", "Model.Infix Model.Sugar Model.Peg.") + "Definition DW_ : list char := %s.\n" % dw
+    try:
+        vals = vlib.coq_eval_terms("c12_sugar_witness", pre, terms, timeout=600)
+    except Exception as e:
+        ctx.broken("correspondence:sugar_witness evaluation failed (%s: %s)" % (type(e).__name__, str(e)[-300:].replace("\n", " ")))
+        return
+    got = {}
+    for (name, inp, real), v in zip(reals, vals):
+        rd, ps = v
+        view = lambda x: ("ok", ["".join(chr(c) for c in t[1]) for t in x[2]]) if x[0] == "POk" else ("fail",) if x == "PFail" or x[0] == "PFail" else ("other", x)
+        ps = ps[1] if isinstance(ps, (list, tuple)) and ps[0] == "Some" else ps
+        got[name] = (view(rd), view(ps), real)
+        ctx.case("sugar_witness:" + name, True, view(ps) == real)
+        if view(ps) != real:
+            ctx.broken("correspondence:sugar_witness the parser model of the elaboration of %s on %r answers %r, the real object %r" % (name, inp, view(ps), real))
+        if view(rd) != real and name != "a*0":
+            ctx.broken("correspondence:sugar_witness the reading of the elaboration of %s on %r is %r, the real object answers %r" % (name, inp, view(rd), real))
+    # the refuted equivalences are refuted by the real code exactly as by the model
+    expect = {"e*3": "ok", "e+e+e": "fail", "e*2": "fail", "And([a,a,e])": "ok", "(a+a)+e": "fail", "a*0": "fail", "(a+a)+a*0": "ok"}
+    for name, want in expect.items():
+        if name in got and got[name][2][0] != want:
+            ctx.broken("correspondence:sugar_witness the real %s no longer %ss on the witness input (Props/C12.v *_refuted is stale): %r" % (name, want, got[name][2]))
+    ctx.stat("sugar_witnesses_confirmed_on_real_code", len(got))
+
+
+MEANING_INPUTS = ["", "a", "a a", "a a a", "a a a a a", "ab ab b", "a b", "b", "a xx b", "aab", " a", "ab,ab ,a", "a b a b", "ab b"]
+
+
+def _tok_py(t):
+    if t[0] == "TStr":
+        return "".join(chr(c) for c in t[1])
+    if t[0] == "TList":
+        return [_tok_py(x) for x in t[1]]
+    return repr(t)
+
+
+def sugar_meaning_checks(ctx):
+    """the ELABORATION is the documented meaning: the parser model (`parse (step [])` of Model/Core.v) run on the Coq elaboration of
+    every operator form - which does not come from a dump of the composite - must answer like the real composite, on every input.
+    (An operator that builds something else than documented fails here with a concrete input even when the documented expansion is
+    built through the same code and changes with it: e.g. stopOn, which both expr[...:stop] and ZeroOrMore(expr, stop_on=stop) call.)"""
+    import pyparsing as pp
+    mk = dict(sugar_operands())
+    tups = {1: [("lit",), ("word",), ("group",)], 2: [("word", "lit"), ("lit", "lit")], 3: [("lit", "word", "lit")]}
+    defs, exprs, reals = [], [], []
+    ins = "[%s]" % "; ".join(vlib.coq_str(s) for s in MEANING_INPUTS)
+    for fname, arity, real, term in sugar_forms(ctx.thorough):
+        for tup in tups[arity]:
+            operands = [mk[n]() for n in tup]
+            try:
+                obj = real(*operands)
+                obj.streamline()
+                d = dump.Dumper()
+                d.dump(obj)
+                o_terms = [_sx_to_coq(observe.parse_sx(d.expr(o))) for o in operands]
+            except Exception:
+                continue
+            k = len(defs)
+            cdw = "true" if operands[-1].copyDefaultWhiteChars else "false"
+            defs.append("Definition T%d : expr := %s.\n" % (k, term.format(*o_terms, cdw=cdw)))
+            exprs.append("map (fun s => proj (parse (step []) 40 (mkargs T%d s 0 true true))) %s" % (k, ins))
+            outs = []
+            for s in MEANING_INPUTS:
+                try:
+                    r = _one_parse(obj, s)
+                    outs.append(("div",) if r == "timeout" else ("ok", r.as_list()))
+                except pp.ParseException:
+                    outs.append(("fail",))
+                except Exception as x:
+                    outs.append(("other", type(x).__name__))
+            reals.append(("%s with %s" % (fname, ",".join(tup)), fname, outs))
+    dw = _cchars([str(ord(c)) for c in sorted(pp.ParserElement.DEFAULT_WHITE_CHARS)])
+    pre = SUGAR_PREAMBLE.replace("Model.Infix Model.Sugar.", "Model.Infix Model.Sugar Model.Peg.") + "Definition DW_ : list char := %s.\n" % dw + "".join(defs)
+    try:
+        vals = vlib.coq_eval_terms("c12_sugar_meaning", pre, exprs, timeout=900)
+    except Exception as e:
+        ctx.broken("correspondence:sugar_meaning evaluation failed (%s: %s)" % (type(e).__name__, str(e)[-300:].replace("\n", " ")))
+        return
+
+    def view(v):
+        if isinstance(v, (list, tuple)) and v and v[0] == "Some":
+            r = v[1]
+            if r[0] == "POk":
+                return ("ok", [_tok_py(t) for t in r[2]])
+            if r[0] == "PFail":
+                return ("fail",)
+            if r[0] == "PDiv":
+                return ("div",)
+        return ("other", repr(v)[:60])
+    for (label, fname, outs), vs in zip(reals, vals):
+        for s, real, v in zip(MEANING_INPUTS, outs, vs):
+            m = view(v)
+            ctx.case("sugar_meaning:%s:%r" % (label, s), True, m == real)
+            if m != real:
+                ctx.violation("sugar-meaning:%s" % fname,
+                              "%s on %r: the real object answers %r, the documented meaning (parser model of the elaboration in coq/Model/Sugar.v) is %r" % (label, s, real, m),
+                              {"kind": "sugar-meaning", "form": fname})
+    ctx.stat("sugar_meaning_cases", len(reals) * len(MEANING_INPUTS))
+
+
+def _flat(l):
+    out = []
+    for x in l:
+        out.extend(_flat(x) if isinstance(x, list) else [x])
+    return out
+
+
 def correspond(ctx):
     corr.ensure_driver()
     rng = ctx.rng
@@ -341,6 +721,9 @@ def correspond(ctx):
     composite_copy_checks(ctx)
     compose_before_after_use(ctx)
     sugar_checks(ctx)
+    sugar_elab_checks(ctx)
+    sugar_witness_checks(ctx)
+    sugar_meaning_checks(ctx)
     nprog = 40 if not ctx.thorough else 400
     for p in range(nprog):
         res = program(ctx, rng, 14)          # every parse inside has its own alarm (behaviour / _one_parse)
@@ -394,6 +777,8 @@ def replay(ctx, obj):
         copy_checks(c2)
     elif r.get("kind") == "sugar":
         sugar_checks(c2)
+    elif r.get("kind") == "sugar-meaning":
+        sugar_meaning_checks(c2)
     elif r.get("kind") == "program":
         import random
         for seed in range(5):
